@@ -85,8 +85,22 @@ def gen_case(rng, tier):
         else:
             items.append([f'box{i}', L([S(f'plain{i}', style='dq'), SP('call', func=f'verif_targets.r{i}', args=L([S(i)]))])])
             prods.append({'path': (f'box{i}', 1), 'name': f'r{i}', 'top': f'box{i}'})
+    # producers that are arguments of a function node which a later stage re-targets (another function: the old arguments are dropped,
+    # whatever their priority) or whose arguments it replaces (same function, default deletion)
+    arg_prods = []
+    for i in range(n_prod, n_prod + rng.choice([0, 0, 1, 2])):
+        forced = rng.random() < 0.5
+        pr = SP('call', func=f'verif_targets.r{i}', args=M([['x', S(i)]]))
+        if forced:
+            pr['prio'] = 1
+        where = rng.choice(['kw', 'nested', 'pos'])
+        args = {'kw': M([['p', pr], ['n', S(1)]]), 'nested': M([['opts', M([['p', pr]])], ['n', S(1)]]), 'pos': L([S(1), pr])}[where]
+        items.append([f'host{i}', SP(rng.choice(['call', 'bind']), func=f'verif_targets.h{i}', args=args)])
+        pp = {'path': (f'host{i}',) + {'kw': ('p',), 'nested': ('opts', 'p'), 'pos': (1,)}[where], 'name': f'r{i}', 'top': f'host{i}', 'arg_of': True, 'forced': forced}
+        prods.append(pp)
+        arg_prods.append(pp)
     # deletions by a later stage (only producers without consumers)
-    deleted = [p for p in prods if rng.random() < 0.2]
+    deleted = [p for p in prods if p.get('arg_of') or rng.random() < 0.2]
     alive = [p for p in prods if p not in deleted]
     cons = []            # {'key', 'kind', 'of': producer path}
     n_cons = rng.choice([0, 1, 2, 3, 5, 8]) if alive else 0
@@ -128,6 +142,11 @@ def gen_case(rng, tier):
         d2 = M([])
         for p in deleted:
             how = rng.choice(['scalar', 'vdel', 'clear_top', 'del_top'])
+            if p.get('arg_of'):
+                i = p['name'][1:]
+                same = not p['forced'] and rng.random() < 0.4
+                d2['items'].append([p['top'], SP(rng.choice(['call', 'bind']), func=f'verif_targets.h{i}' if same else f'verif_targets.g{i}', args=M([['q', S(2)]]))])
+                continue
             if how == 'scalar' or len(p['path']) == 1 and how in ('clear_top',):
                 from .c16 import put
                 put(d2, p['path'] if isinstance(p['path'][-1], str) else (p['top'],), S(424242))      # (a *string* merged onto a function node would rename its target, see C13)
